@@ -9,9 +9,6 @@ From J5V.model Require Import RulesDecl RulesWrite RulesRead RulesEnum RulesNest
 From J5V.proofs Require Import RulesProofs RulesReadProofs.
 Import ListNotations.
 
-Lemma has_prefix_app (p s : str) : has_prefix p (p ++ s) = true.
-Proof. induction p as [|c r IH]; [destruct s; reflexivity|]. cbn. rewrite N.eqb_refl. exact IH. Qed.
-
 Lemma unspec_ok_zero_std e : unspec_ok e = true -> zero_std (env_of_decl e) = true.
 Proof.
   unfold unspec_ok, env_of_decl, zero_std. destruct (ed_options e) as [|[[n d] inf] r]; [reflexivity|].
